@@ -18,8 +18,11 @@ UNITS = [
 ] + [
     Unit(name="C17.snapshot_" + n, src="units/C17/snapshot.c", defines=[d], functions=keep, props=["C17"] + (["C08"] if n == "position" else []), no_dfcc=True,
          kind="bounded", bound="2 tracked entities (2 segments with <= 2 addresses each); loops unwound completely for that size",
-         remove_bodies=[f for f in _g if f not in keep], extra_flags=["--nondet-static", "--unwind", "6"], covers=1, min_obligations=6, timeout=600,
+         remove_bodies=[f for f in _g if f not in keep], extra_flags=["--nondet-static", "--unwind", "9"], covers=1, min_obligations=6, timeout=600,
          stubbed_contracts=["strdup", "memcpy", "bidib_state_get_train_ref", "bidib_state_get_train_state_ref"])
     for n, d, keep in [("boosters", "VP_H_BOOSTERS", ["bidib_get_state_boosters"]), ("segments", "VP_H_SEGMENTS", ["bidib_get_state_segments"]),
-                       ("position", "VP_H_POSITION", ["bidib_get_train_position_intern", "bidib_free_train_position_query"])]
+                       ("position", "VP_H_POSITION", ["bidib_get_train_position_intern", "bidib_free_train_position_query"]),
+                       ("accessories_board", "VP_H_ACC_BOARD", ["bidib_get_state_accessories_board"]), ("accessories_dcc", "VP_H_ACC_DCC", ["bidib_get_state_accessories_dcc"]),
+                       ("peripherals", "VP_H_PERIPHERALS", ["bidib_get_state_peripherals"]), ("reversers", "VP_H_REVERSERS", ["bidib_get_state_reversers"]),
+                       ("track_outputs", "VP_H_TRACK_OUTPUTS", ["bidib_get_state_track_outputs"]), ("trains", "VP_H_TRAINS", ["bidib_get_state_trains"])]
 ]
